@@ -287,11 +287,15 @@ func init() {
 			switch kind {
 			case 0:
 				w := barrierWF(c)
+				idle := false
 				switch c.Tape.Choose(simrt.StGen, 4, 0) {
 				case 1:
 					w = staggeredWF(c)
 				case 2:
 					w = releaseWaveWF(c)
+					// on an otherwise idle machine (simulated time passes only while
+					// everything waits) the admission of the wave can be timed
+					idle = c.Tape.Choose(simrt.StGen, 2, 0) == 1
 				}
 				for i := range w.Nodes {
 					// Process.Spawn = false is a no-op for the library: tasks of such a
@@ -302,13 +306,30 @@ func init() {
 				}
 				c.Sample = "barrier: " + sample(w)
 				ex := Eval(w)
-				inc := RunInc(w, c.Tape, nil, 0, IncOpts{KillAt: -1, Strategy: strategyOf(c.Tape), Trace: c.Trace, OnStep: slotInvariant(w, c)})
+				inc := RunInc(w, c.Tape, nil, 0, IncOpts{KillAt: -1, Strategy: strategyOf(c.Tape), Trace: c.Trace, OnStep: slotInvariant(w, c), NoEarlyTimers: idle})
 				c.Absorb(inc)
 				if v, ok := inconclusiveEnd(inc); ok {
 					return v
 				}
 				if inc.Sim.End == simrt.EndDeadlock {
 					return Viol("not-work-conserving", "barrier", "tasks that fit into the free slots together did not execute simultaneously: %s", endDesc(inc))
+				}
+				if idle && completedOK(inc) {
+					// the wide task returned its slots when its command had ended; every
+					// waiting one-core task fits from then on and nothing else is going on
+					var bigEnd, lastStart int64
+					for _, o := range inc.Sim.Shell.Insts {
+						if (o.Name == "big" || o.Name == "gate") && o.EndAbs > bigEnd {
+							bigEnd = o.EndAbs // (the gate's outputs make the wave ready)
+						}
+						if o.Name == "small" && o.StartAbs > lastStart {
+							lastStart = o.StartAbs
+						}
+					}
+					c.Probe("release-wave-timed")
+					if bigEnd > 0 && lastStart-bigEnd > 5e9 {
+						return Viol("not-work-conserving", "late-admission", "on an idle machine a one-core task that fitted into the slots returned by the wide task was started only %.1f simulated s after the wide task's command had ended and the wave was ready", float64(lastStart-bigEnd)/1e9)
+					}
 				}
 				if len(inc.Viol) > 0 {
 					return Viol("slots-exceeded", "", "%s", inc.Viol[0])
@@ -370,21 +391,52 @@ func init() {
 						c.Sample = fmt.Sprintf("%s appears from outside at step %d; %s", strings.TrimPrefix(p, "/work/"), opts.InjectAt, c.Sample)
 					}
 				}
-				inc := RunInc(w, c.Tape, nil, 0, opts)
+				var root *simrt.Inode
+				nextIno := 0
+				if !nested && opts.InjectAt == 0 && c.Tape.Choose(simrt.StFault, 5, 0) == 1 {
+					// a partly finished workflow: a complete earlier run, then some results
+					// were deleted. Tasks whose outputs exist ask for no slot at all; the
+					// others compete for the slots exactly as in a first run.
+					inc0 := RunInc(w, c.Tape, nil, 0, IncOpts{KillAt: -1, Trace: c.Trace})
+					c.Absorb(inc0)
+					if v, ok := inconclusiveEnd(inc0); ok {
+						return v
+					}
+					if !completedOK(inc0) {
+						return Skipped(Viol("first-run", "", "%s", endDesc(inc0)))
+					}
+					var gone []string
+					for _, t := range ex.Tasks {
+						if len(t.Outs) == 0 || c.Tape.Choose(simrt.StFault, 2, 0) == 0 {
+							continue
+						}
+						for _, p := range t.Outs {
+							if !ex.StreamPaths[Abs(p)] {
+								inc0.Sim.FS.RemoveAll("/work", Abs(p))
+								inc0.Sim.FS.RemoveAll("/work", Abs(p)+".audit.json")
+								gone = append(gone, p)
+							}
+						}
+					}
+					root, nextIno = inc0.Sim.FS.Root, inc0.Sim.FS.NextIno
+					c.Fault("partly-finished")
+					c.Sample = fmt.Sprintf("re-run after deleting %v; %s", gone, c.Sample)
+				}
+				inc := RunInc(w, c.Tape, root, nextIno, opts)
 				c.Absorb(inc)
 				if v, ok := inconclusiveEnd(inc); ok {
 					return v
 				}
 				if inc.Sim.End == simrt.EndDeadlock {
 					d := inc.Sim.DeadlockString()
-					// only a deadlock in which a task waits for slots (token channel / acquisition lock) is this property's
-					if strings.Contains(d, "chan struct {}") || strings.Contains(d, "chan<- struct {}") || strings.Contains(d, "mutex") {
+					// only a deadlock in which a task waits for slots (token channel / acquisition lock / a queue for them) is this property's
+					if strings.Contains(d, "chan struct {}") || strings.Contains(d, "chan<- struct {}") || strings.Contains(d, "mutex") || strings.Contains(d, "cond #") {
 						return Viol("slot-deadlock", deadlockSig(inc), "tasks waiting for slots block each other forever: %s", endDesc(inc))
 					}
 					return Skipped(Viol("deadlock", "", "%s", endDesc(inc)))
 				}
-				if nested {
-					return OK() // (the nested runs' files are not part of the reference)
+				if nested || root != nil {
+					return OK() // (the nested runs' files are not part of the reference; a re-run executes only some of the tasks)
 				}
 				if v := flowOracle(inc, ex); v.Status == "violation" {
 					return Skipped(v)
